@@ -231,45 +231,50 @@ EvStatements(L) == Un({"del"}, EvAtomsInt(L) \cup EvAtomsStr(L) \cup EvBool1(L) 
                    \cup Bin({"upds"}, EvStrCrits, EvStrSets)
                    \cup Ter({"upda", "updb"}, EvCrits2, EvSetA, EvSetB)
 
-\* ---- C01
+\* ---- C01: trees of depth <= 2 per operator family, depth 3 sampled.  Level 0 keeps the depth-2 layer to nested shapes over three
+\* leaves (what decides a grouping is the pair of operators and the side, not the leaves); Level 1 is the full product.
 Leaf01 == {Col(0), Col(1), Lit(2), Lit(-1)}
 ArK == {"add", "sub", "mul", "idiv", "mod"}
+XK == {"xsub", "xmul", "xadd"}
+ArL == {Col(0), Col(1), Lit(2)}
 Ar1 == Bin(ArK, Leaf01, Leaf01) \cup Un({"neg"}, Leaf01)
-ArD1 == Leaf01 \cup Ar1
-ArLeafS == {Col(0), Col(1), Lit(2)}        \* a smaller leaf set below depth-2 nodes keeps the family enumerable
-Ar1S == Bin(ArK, ArLeafS, ArLeafS) \cup Un({"neg"}, {Col(0), Lit(-1)})
-ArD1S == ArLeafS \cup Ar1S
-Arith2(L) == Bin(ArK, ArD1S, ArD1S) \cup Un({"neg"}, ArD1) \cup Ar1
-          \cup Bin({"xsub", "xmul", "xadd"}, ArD1S, ArLeafS) \cup Bin({"xsub", "xmul", "xadd"}, ArLeafS, ArD1S)
-          \cup Bin(ArK, Bin({"xsub", "xmul", "xadd"}, ArLeafS, ArLeafS), ArLeafS) \cup Bin(ArK, ArLeafS, Bin({"xsub", "xmul", "xadd"}, ArLeafS, ArLeafS))
+Ar1S == Bin(ArK, ArL, ArL) \cup Un({"neg"}, {Col(0), Lit(-1), Lit(2)})
+ArD1S == ArL \cup Ar1S
+Arith2(L) == Ar1 \cup Un({"neg"}, Ar1S) \cup Bin(ArK, Ar1S, ArL) \cup Bin(ArK, ArL, Ar1S)
+             \cup {T1(o) \o (T1(p) \o Col(0) \o Col(1)) \o (T1(q) \o Lit(2) \o Col(0)) : o \in ArK, p \in ArK, q \in ArK}
+             \cup Bin(XK, Ar1S, {Col(1)}) \cup Bin(XK, {Col(0)}, Ar1S)
+             \cup Bin(ArK, Bin(XK, {Col(0)}, {Col(1)}), {Lit(2)}) \cup Bin(ArK, {Lit(2)}, Bin(XK, {Col(0)}, {Col(1)}))
+             \cup (IF L = 0 THEN {} ELSE Bin(ArK, Ar1S, Ar1S) \cup Bin(XK, ArD1S, ArL) \cup Bin(XK, ArL, ArD1S))
 Cmp0 == Bin(CmpK, {Col(0)}, {Col(1), Lit(1)}) \cup Un({"isnull", "notnull"}, {Col(0), Col(1)}) \cup {T1("true"), T1("false")}
            \cup Ter({"between", "nbetween"}, {Col(0)}, {Lit(-1), Col(1)}, {Lit(1)})
            \cup InOf({"in", "notin"}, {Col(0)}, {<<>>, <<1, NULL>>, <<0, 2>>})
 BoolK == {"and", "or"}
-Bool1(L) == Bin(BoolK, Cmp0, Cmp0) \cup Un({"not"}, Cmp0)
 BoolB == {T1("eq") \o Col(0) \o Lit(1), T1("lt") \o Col(0) \o Col(1), T1("isnull") \o Col(1), T1("true"),
           T1("between") \o Col(0) \o Lit(-1) \o Lit(1), <<Tok("in", 2)>> \o Col(0) \o Lit(1) \o Lit(NULL)}
 BoolB1 == BoolB \cup Bin(BoolK, BoolB, BoolB) \cup Un({"not"}, BoolB)
-Bool2(L) == Bool1(L) \cup Bin(BoolK, BoolB1, BoolB1) \cup Un({"not"}, BoolB1)
+Bool2(L) == Un({"not"}, Cmp0) \cup Bin(BoolK, Cmp0, BoolB) \cup Bin(BoolK, BoolB, Cmp0)
+            \cup Bin(BoolK, BoolB1, BoolB) \cup Bin(BoolK, BoolB, BoolB1) \cup Un({"not"}, BoolB1)
+            \cup (IF L = 0 THEN {} ELSE Bin(BoolK, Cmp0, Cmp0) \cup Bin(BoolK, BoolB1, BoolB1))
 \* comparisons / predicates over arithmetic, arithmetic over predicates (booleans are integers on SQLite), CASE, CAST, scalar subquery
-Mixed2(L) == Bin(CmpK, Ar1S, ArLeafS) \cup Bin({"eq", "lt"}, ArLeafS, Ar1S)
-          \cup Ter({"between", "nbetween"}, Ar1S, {Lit(-1)}, {Col(1)}) \cup Ter({"between"}, {Col(0)}, Ar1S, {Lit(2)}) \cup Ter({"between"}, {Col(0)}, {Lit(-1)}, Ar1S)
-          \cup Un({"isnull", "notnull"}, Ar1S)
-          \cup InOf({"in", "notin"}, Ar1S, {<<>>, <<1, NULL>>})
-          \cup Bin(ArK, BoolB, ArLeafS) \cup Bin({"add", "sub", "mul"}, ArLeafS, BoolB) \cup Un({"neg"}, BoolB)
+CaseLt == Ter({"case"}, {T1("lt") \o Col(0) \o Col(1)}, {Col(0)}, {Col(1)})
+Mixed2(L) == LET A1 == IF L = 0 THEN Bin(ArK, {Col(0)}, {Col(1), Lit(2)}) \cup {T1("neg") \o Col(0)} ELSE Ar1S IN
+          Bin(CmpK, A1, ArL) \cup Bin({"eq", "lt"}, ArL, A1)
+          \cup Ter({"between", "nbetween"}, A1, {Lit(-1)}, {Col(1)}) \cup Ter({"between"}, {Col(0)}, A1, {Lit(2)}) \cup Ter({"between"}, {Col(0)}, {Lit(-1)}, A1)
+          \cup Un({"isnull", "notnull"}, A1)
+          \cup InOf({"in", "notin"}, A1, {<<>>, <<1, NULL>>})
+          \cup Bin(ArK, BoolB, ArL) \cup Bin({"add", "sub", "mul"}, ArL, BoolB) \cup Un({"neg"}, BoolB)
           \cup Bin(CmpK, BoolB, {Lit(1), Col(1)}) \cup Bin({"eq", "ne", "lt"}, {Col(1)}, BoolB)
-          \cup Un({"cast", "subq"}, ArD1S \cup BoolB) \cup Bin(ArK, Un({"cast", "subq"}, Ar1S), ArLeafS) \cup Bin(ArK, ArLeafS, Un({"cast", "subq"}, Ar1S))
-          \cup Ter({"case"}, BoolB, ArD1S, {Lit(0), T1("neg") \o Col(1)}) \cup Bin(ArK, Ter({"case"}, BoolB, {Col(0)}, {Col(1)}), ArLeafS)
-          \cup Bin(ArK, ArLeafS, Ter({"case"}, {T1("lt") \o Col(0) \o Col(1)}, {Col(0)}, {Col(1)}))
-          \cup Bin(CmpK, Ter({"case"}, {T1("lt") \o Col(0) \o Col(1)}, {Col(0)}, {Col(1)}), ArLeafS)
-          \cup Un({"not"}, Bin(CmpK, Ar1S, {Col(1)})) \cup Un({"not"}, Un({"not"}, BoolB)) \cup Un({"not"}, Un({"cast", "subq"}, BoolB))
-SLeaf01 == {SCol(0), SCol(1), SLit(2), SLit(3), SLit(6), SLit(7), SLit(10)}
-SVal1(L) == Bin({"concat"}, SLeaf01, SLeaf01)
-SValD1(L) == SLeaf01 \cup SVal1(L)
+          \cup Un({"cast", "subq"}, ArD1S \cup BoolB) \cup Bin(ArK, Un({"cast", "subq"}, A1), ArL) \cup Bin(ArK, ArL, Un({"cast", "subq"}, A1))
+          \cup Ter({"case"}, BoolB, A1 \cup ArL, {Lit(0), T1("neg") \o Col(1)}) \cup Bin(ArK, Ter({"case"}, BoolB, {Col(0)}, {Col(1)}), ArL)
+          \cup Bin(ArK, ArL, CaseLt) \cup Bin(CmpK, CaseLt, ArL)
+          \cup Un({"not"}, Bin(CmpK, A1, {Col(1)})) \cup Un({"not"}, Un({"not"}, BoolB)) \cup Un({"not"}, Un({"cast", "subq"}, BoolB))
+SLeaf01(L) == IF L = 0 THEN {SCol(0), SCol(1), SLit(6), SLit(7)} ELSE {SCol(0), SCol(1), SLit(2), SLit(3), SLit(6), SLit(7), SLit(10)}
+SVal1(L) == Bin({"concat"}, SLeaf01(L), SLeaf01(L))
+SValD1(L) == SLeaf01(L) \cup SVal1(L)
 SPred0 == Bin({"like", "nlike", "seq", "sne", "starts", "ends", "contains"}, {SCol(0)}, {SCol(1), SLit(6), SLit(8)}) \cup Un({"sisnull", "snotnull"}, {SCol(0)})
 Str2(L) == Bin({"concat"}, SValD1(L), SValD1(L))
-        \cup Bin({"like", "nlike", "seq", "sne"}, SValD1(L), SLeaf01) \cup Bin({"like", "seq"}, SLeaf01, SVal1(L))
-        \cup Bin({"starts", "ends", "contains"}, SValD1(L), SLeaf01) \cup Bin({"starts", "ends", "contains"}, {SCol(0)}, SVal1(L))
+        \cup Bin({"like", "nlike", "seq", "sne"}, SValD1(L), SLeaf01(L)) \cup Bin({"like", "seq"}, SLeaf01(L), SVal1(L))
+        \cup Bin({"starts", "ends", "contains"}, SValD1(L), SLeaf01(L)) \cup Bin({"starts", "ends", "contains"}, {SCol(0)}, SVal1(L))
         \cup Un({"sisnull", "snotnull"}, SValD1(L))
         \cup Un({"not"}, SPred0) \cup Bin(BoolK, SPred0, SPred0) \cup Un({"not"}, Bin(BoolK, SPred0, {T1("seq") \o SCol(0) \o SLit(2)}))
 \* (the large sets take the level as a parameter so that TLC does not materialise all of them at start-up as constants)
@@ -324,6 +329,7 @@ ASSUME KleeneLaws ==
   /\ \A a, b, c \in V3 : And3(And3(a, b), c) = And3(a, And3(b, c)) /\ Or3(Or3(a, b), c) = Or3(a, Or3(b, c))   \* AND / OR may be flattened
   /\ \A a, b \in V3 : Not3(And3(a, b)) = Or3(Not3(a), Not3(b)) /\ Not3(Or3(a, b)) = And3(Not3(a), Not3(b))     \* De Morgan
   /\ \A a \in V3 : Not3(Not3(a)) = a
+  /\ \A a \in V3 : And3(1, a) = a /\ And3(0, a) = 0 /\ Or3(0, a) = a /\ Or3(1, a) = 1      \* TRUE / FALSE operands may be simplified away
   /\ And3(NULL, 0) = 0 /\ And3(0, NULL) = 0 /\ Or3(NULL, 1) = 1 /\ Or3(1, NULL) = 1 /\ And3(NULL, 1) = NULL /\ Or3(NULL, 0) = NULL
 ASSUME NegationRewritingSound ==       \* every operator -> negated operator substitution the expression language performs
   /\ \A a, b \in IV : /\ Not3(Eq3(a, b)) = Ne3(a, b) /\ Not3(Ne3(a, b)) = Eq3(a, b)
